@@ -540,7 +540,8 @@ Fixpoint match_pat (fuel : nat) (s : store) (p : pattern) (v : value) (e : env) 
           | _ :: _, [] => MNo
           end in
       match p with
-      | PWild => MYes e
+      | PWild None => MYes e
+      | PWild (Some h) => if hint_ok h v then MYes e else MNo
       | PNull => lit VNull
       | PBool x => lit (VBool x)
       | PInt z => lit (VInt z)
